@@ -151,9 +151,9 @@ macro_rules! c06 {
 // The harness instances are generated (gen/pregen.py -> gen_c06.rs) so that the alpha slices of
 // the 16-bit divide follow VERIF_SEED; a few fixed ones are kept here.
 
-// @h c06_reject_no_alpha | prop=C06 | tier=quick | t=600 | flags=stub | enc=MulDiv::{multiply,divide}_alpha(_inplace)_typed for U8, U8x3, U16, U16x3, I32, F32, F32x3 (AlphaMulDiv default impls) | bounds=symbolic: pixel contents of 2x1 images; enumerated: the 7 pixel types without alpha; unwind 4
+// @h c06_reject_no_alpha | prop=C06 | tier=quick | t=600 | flags=stub | enc=MulDiv::{multiply,divide}_alpha(_inplace)_typed for U8, U8x3, U16, U16x3, I32, F32, F32x3 (AlphaMulDiv default impls) | bounds=symbolic: pixel contents of 2x1 images; enumerated: the 7 pixel types without alpha; unwind 8
 x86_proof! {
-    #[kani::unwind(4)]
+    #[kani::unwind(8)]
     pub fn c06_reject_no_alpha() {
         macro_rules! one {
             ($P:ty, $C:ty) => {{
